@@ -1,16 +1,26 @@
 # Driver configuration for property C08
 PROP = dict(
     pkg="c08", level="exploration",
-    technique="model-based PBT over the real JSON-RPC stack: identity-bearing fields rendered independently from the generated chain / abstract state, error-code oracle, route-consistency and cross-version (v0.8/v0.9/v0.10) differential",
-    level_text=("Exploration: generated chain trees with reverts and L1-head positions are served through the real method tables of three API versions on "
-                "jsonrpc servers; requests are JSON text. Identity fields are compared with the model, all other fields by route consistency and "
-                "agreement between versions on shared keys."),
-    rule=("prefix 1-3 + reverted fork 0-2 + fork 0-3 blocks, both backends, L1 head absent/behind/equal/ahead; per case every special block id and a drawn "
+    technique="model-based PBT over the real JSON-RPC stack on both stores (in-memory and Pebble v2) and both state backends: identity-bearing fields rendered independently from the generated chain / abstract state, error-code oracle, route-consistency and cross-version (v0.8/v0.9/v0.10) differential",
+    level_text=("Exploration: generated chain trees with reverts and L1-head positions are stored on the in-memory store or (2 of 5 cases) on a real Pebble v2 "
+                "database in a scratch directory, optionally restarted (new Blockchain + handlers; on Pebble also database closed and reopened), and served "
+                "through the real method tables of three API versions on jsonrpc servers; requests are JSON text. Identity fields are compared with the model, "
+                "all other fields by route consistency and agreement between versions on shared keys. On Pebble the history lookups, prefix iterations and "
+                "snapshots of the read path run against the production store's bounded iterators instead of the memory store's prefix filter."),
+    rule=("prefix 1-3 + reverted fork 0-2 + fork 0-3 blocks, both state backends x store memory/Pebble v2 (40%), restart before serving in 1/4 of the cases "
+          "(Pebble: half of them with a real close/reopen), L1 head absent/behind/equal/ahead; per case every special block id and a drawn "
           "subset of number/hash ids x 9 block-level methods + nonce/class hash/storage/class reads + tx by (id,index) + tx/receipt/status by hash for "
           "existing, reverted and random hashes; getClassAt (route-consistent with getClass of getClassHashAt), Cairo 0 classes, and on v0.10 getStorageAt with "
-          "INCLUDE_LAST_UPDATE_BLOCK bounded by the chain's diffs. Non-trivial = a query resolved through l1_accepted, a reverted hash or a historical block; distinct = "
-          "SHA-256 of shape, L1 head and head hash."),
+          "INCLUDE_LAST_UPDATE_BLOCK bounded by the chain's diffs. Dense state sweep (every Pebble case, 1/4 of the memory cases, also before the reorg): every "
+          "canonical block through a drawn id form (number, hash, latest, l1_accepted) x every universe address (getNonce, getClassHashAt) x every universe slot "
+          "(getStorageAt, a third of them on v0.10 with the last-update block) through a drawn API version, same model oracles; labels count the reads at a block "
+          "where the NEXT contract/slot (in key order) got its first history record while the queried item has none at or after it (and the after-variant for the "
+          "legacy layout). Non-trivial = a query resolved through l1_accepted, a reverted hash or a historical block, or such a neighbour-record read; distinct = "
+          "SHA-256 of backend, store, shape, L1 head and head hash."),
     assumptions=["no Cairo execution (call/estimate/trace out of scope)", "pre-confirmed ids are not queried (no pre-confirmed chain in this harness)",
-                 "fields other than the identity-bearing ones are checked by route consistency and version agreement only"],
+                 "fields other than the identity-bearing ones are checked by route consistency and version agreement only",
+                 "the Pebble scratch directory is RAM-backed (/dev/shm) when available: fsync durability itself is not under test, and a restart is a clean "
+                 "close/reopen (no crash images; those belong to C05)",
+                 "chains are 1-6 blocks long: Pebble compactions / multi-level reads are not reached"],
     runs=[dict(run="^Test(Prop|Known)")],
 )
